@@ -202,6 +202,9 @@ def simulate(case):
         elif o == 'cplx': out.append(r.cplx_line())
         elif o == 'dim': out.append('dim %d' % r.dim())
         elif o == 'order': out.append(r.order_line())
+        elif o == 'orderinf':
+            kept = [x for x in r.order_line().split()[1:] if int(x.rsplit(':', 1)[1]) < a[0]]
+            out.append('orderinf ' + ' '.join(kept) if kept else 'orderinf none')
         elif o == 'find':
             v = r.c.get(tuple(sorted(a))); out.append('find none' if v is None else 'find %d' % v)
         elif o == 'star':
